@@ -15,7 +15,7 @@ from lib.common import log
 SPEC = common.SPEC / "pool"
 REPO_SRC = ["src/threading/Thread.cpp", "src/threading/Runnable.cpp"]
 FLAGS = ["-O0", "-fno-inline", "-g", "-UNDEBUG", "-fno-lifetime-dse"]
-P_EVENTS = {"Payload", "Restart", "Begin", "StartCall", "StartRet", "Invoke", "InvokeEnd", "InvokeTrap", "RunBegin", "RunEnd", "Destroy", "FinSeen", "JoinRet",
+P_EVENTS = {"Payload", "Restart", "StartThrew", "Begin", "StartCall", "StartRet", "Invoke", "InvokeEnd", "InvokeTrap", "RunBegin", "RunEnd", "Destroy", "FinSeen", "JoinRet",
             "Done", "Deadlock", "Crash", "TooLong"}
 ASSUMPTIONS = [
     "A2: vsched's model of pthread_create/join is faithful; the new thread's first instruction is a scheduling point",
@@ -93,7 +93,8 @@ def check(pid, tier, seed):
     n_y = {"quick": 240, "thorough": 200000}[tier]
     rnd = random.Random("thr-%s" % seed)
     for i in range(n_y):
-        lines += ["X y%d mode=random kind=%d args=%d form=%d rounds=%d seed=%d" % (i, i % 4, (i // 4) % 3, (i // 12) % 2, 2 if i % 5 == 3 else 1, rnd.randrange(1, 2 ** 31)), "E"]
+        # every eighth: the first pthread_create fails (EAGAIN), start() throws, and the same start() is tried again
+        lines += ["X y%d mode=random kind=%d args=%d form=%d rounds=%d failcreate=%d seed=%d" % (i, i % 4, (i // 4) % 3, (i // 12) % 2, 2 if i % 5 == 3 else 1, 1 if i % 8 == 6 else 0, rnd.randrange(1, 2 ** 31)), "E"]
     res = common.run_harness(exe, "\n".join(lines) + "\n")
     # 'poll' scenario on the access-instrumented build
     plines = []
